@@ -147,7 +147,10 @@ PROPS = {
         "assumptions": COMMON_ASSUME,
     },
     "C08": {
-        "units": [{"pkg": "./c08", "shards": 4, "shards_thorough": 16, "timeout": 900}],
+        "units": [
+            {"pkg": "./c08", "shards": 4, "shards_thorough": 16, "timeout": 900},
+            {"pkg": "./mainpkg", "run": "^TestC08", "shards": 2, "shards_thorough": 4, "timeout": 900},
+        ],
         "rule": ("rapid-generated scenarios: peer address (IPv4, IPv6, 4-in-6, any port), TLS on/off with version/cipher, client Host with and without port incl. IPv6 literals, client header sets with forged or "
                  "chained copies of every managed header (X-Forwarded-For 0-2 lines, -Proto, -Port, -Host, Forwarded with/without proto=, X-Real-Ip, the configured client-IP and TLS headers, repeated), configurations "
                  "ClientIPHeader in {'', custom, X-Real-Ip, X-Forwarded-For}, TLSHeader/Value, LocalIP, STS max-age/subdomains/preload, routes with and without host=/strip=. Driven through HTTPProxy.ServeHTTP with a "
@@ -155,7 +158,8 @@ PROPS = {
                  "client-IP header == [peer]; last X-Forwarded-For element == peer; X-Real-Ip == peer unless sent; TLS header == [value] iff TLS; X-Forwarded-Proto/Forwarded generated when absent and naming the real "
                  "scheme and peer, derived from the other when exactly one was sent, never overwritten; X-Forwarded-Port = port of the Host the client asked for else 443/80 by TLS; X-Forwarded-Host = the client's Host "
                  "even under host=; HSTS iff TLS and max-age>0 with the configured directives. Non-trivial = request forges >=1 managed header or the route rewrites Host. Listener form: the same scenarios through fabio's own listeners (proxy.ListenAndServeHTTP with and without TLS, the https side of ListenAndServeHTTPSTCPSNI), each with the PROXY-protocol option "
-                 "off and on; with the option on (http/https) the client may announce another peer in a PROXY v1 line, which is then the real peer."),
+                 "off and on; with the option on (http/https) the client may announce another peer in a PROXY v1 line, which is then the real peer. Main-wiring form (mainpkg): a plain and a TLS listener built by main.go itself (config.Load -> startServers -> newHTTPProxy) with generated proxy.header.tls/.value, proxy.header.clientip and "
+                 "proxy.header.sts.maxage options; clients forge those headers on either listener."),
         "technique": "rapid property tests of the forwarding-header contract with a capturing transport and real plain/TLS/websocket sockets",
         "level_text": "Generated client header sets and connection properties are sent through fabio's HTTP handler and the headers that reach the upstream are checked against the stated contract, directly and over real sockets. Exploration only.",
         "level_note": "When the configured client-IP header is X-Real-Ip or X-Forwarded-For the dedicated rules for those headers apply (the statement's two sentences overlap there). Forwarded is checked for 'for=<peer>' and 'proto=' content, not for RFC 7239 syntax.",
